@@ -32,6 +32,8 @@ pub struct Cyc {
   pub next: fn(isize, isize) -> usize,
   pub name: fn(isize) -> String,
   pub from_name: Option<fn(&str) -> usize>,
+  /// the library's own `==` and `!=` on two values built from indices
+  pub eq: fn(isize, isize) -> (bool, bool),
 }
 
 macro_rules! cyc {
@@ -43,6 +45,7 @@ macro_rules! cyc {
       next: |i, n| <$t>::from_index(i).next(n).get_index(),
       name: |i| <$t>::from_index(i).get_name(),
       from_name: Some(|s| <$t>::from_name(s).get_index()),
+      eq: |i, j| { let (x, y) = (<$t>::from_index(i), <$t>::from_index(j)); (x == y, x != y) },
     }
   };
   ($t:ty, $id:expr, noname) => {
@@ -53,6 +56,7 @@ macro_rules! cyc {
       next: |i, n| <$t>::from_index(i).next(n).get_index(),
       name: |i| <$t>::from_index(i).get_name(),
       from_name: None,
+      eq: |i, j| { let (x, y) = (<$t>::from_index(i), <$t>::from_index(j)); (x == y, x != y) },
     }
   };
 }
